@@ -110,7 +110,11 @@ PROPS = {
                       "deadlocks (C07_no_deadlock), every trace is bounded (C07_terminates_all), a quiescent configuration is final (C07_completes); "
                       "fewer than MaximumTaskCall activations of a task pass the counter, the others return 204, and so does a reference whose wait "
                       "would close a cycle through a run: once / when_changed task (C07_cycle_error, C07_cycle_error_dedup; 201 wrapping through task: "
-                      "calls). The hang of the rule before the fix is kept as a fact about that rule only (C07_old_rule_deadlock). Tie: event log of the "
+                      "calls). The call limit counts references, not depth: an ACYCLIC program that refers to one task 1000 times ends with 204 — the model "
+                      "mirrors the code, the full statement is refuted (C07_acyclic_no_204_counterexample), what holds is C07_no_204_if_refs_lt_max, the "
+                      "monitor callLimitMon (verdict C07a) prints the open finding C07-call-limit-hits-acyclic-graphs on the many-refs stream. A returned "
+                      "activation that passed its guards and recorded no failure has done all its work (C07_all_work_done). "
+                      "The hang of the rule before the fix is kept as a fact about that rule only (C07_old_rule_deadlock). Tie: event log of the "
                       "real executor replayed through the same `replay` (a log that ends without a result is never accepted), boundOk evaluated on the "
                       "raw log; the placement of the wait-for bookkeeping and of the waitCycle hook inside the dedup critical section, and the context "
                       "of deferred commands, pinned by SchedTie; a stream of reference cycles through deduplicated tasks (ring, several top-level calls "
@@ -124,9 +128,11 @@ PROPS = {
         "domains": [{"name": "sched"}],
         "trusted": ["the verif-tagged event-log hooks in /repo (verifhook.Ev calls in task.go); guard outcomes of the generated Taskfile are what the "
                     "generator says (a wrong rendering shows up as a rejected trace)"],
-        "assumptions": ["guard outcomes are data of the abstract program (platform, requires, enum, precondition, prompt)"],
-        "level_text": "Theorems over every step and every accepted trace, all flags incl. --force/--force-all/--yes: platform/requires/enum decided at "
-                      "enter (ok/206/207, no slot, no command, not counted as a call); failed precondition => only precondFail (generic) or ctxErr; prompt "
+        "assumptions": ["guard outcomes are data of the abstract program (platform, requires, compiles, enum, precondition, prompt)"],
+        "level_text": "Theorems over every step and every accepted trace, all flags incl. --force/--force-all/--yes: platform/requires/compilation/enum decided at "
+                      "enter in that order — the order RunTask asks them, pinned by SchedTie.runTask_skeleton — the first failing guard alone deciding "
+                      "(ok/206/plain error/207, no slot, no command, not counted as a call: C13_early_classes, C13_guard_order); a task excluded by platforms: "
+                      "is skipped with success whatever its other guards would say (C13_platform_skip_first); failed precondition => only precondFail (generic) or ctxErr; prompt "
                       "without --yes => guardsPassed rejected, 205; an activation of a guarded task never starts a command (C13_no_cmd: guardedNoCmd, "
                       "noCmdMon); a failed precondition gives an error result (C13_precond_fails, waiters excepted); 202 for internal tasks before any event; "
                       "errors propagate through deps and task: calls (201 wrapping for direct callers). Codes tied to Gen.Codes. Tie: event log replay + "
@@ -144,7 +150,9 @@ PROPS = {
         "level_text": "Theorems over every trace the executor LTS accepts (all programs, flags, failing positions, interleavings, cancellations): deferred "
                       "entries start in strictly decreasing index order (reverse registration order, none twice); when an activation has finished its "
                       "deferred part it has run exactly the registered entries reversed; deferred results never change the task's result or EXIT_CODE; "
-                      "EXIT_CODE seen = status of the failing command. Tie: the event log of the real executor (verif hooks) for generated task graphs "
+                      "EXIT_CODE seen = status of the failing command — by deferred commands and, through `vars: {V: '{{.EXIT_CODE}}'}`, by the callees of deferred "
+                      "task: entries (C14_deferred_call_sees_exit_code; value monitor, verdict C02v); what ran is the list of defer: entries of the PROGRAM below "
+                      "the point the body reached, reversed — all of them when the body ran to its end (C14_regs_are_program, C14_all_run_complete). Tie: the event log of the real executor (verif hooks) for generated task graphs "
                       "is replayed through the same `replay`; every log must be accepted and pass the same monitors.",
         "level_note": "Trusted: Lean kernel; hook placement; harness rendering of abstract programs; schedule coverage is whatever seeded jitter reaches "
                       "(the theorem, not the sampling, covers all interleavings of the model).",
@@ -353,10 +361,14 @@ def _sched(pid, text):
 _sched("C01", "Theorems over every accepted trace of the executor LTS (all programs, flags, interleavings): when a command of an activation starts, every "
               "dependency activation has entered, exited and returned ok (C01_deps_done_ok, C01_cmd_start); a dependency served by a dedup waiter "
               "returned only after the one registered execution finished, with that execution's result (C01_shared, C01_shared_dep); the raw monitors "
-              "wakeAfterDone / depsExitedBefore hold on every accepted trace.")
+              "wakeAfterDone / depsExitedBefore hold on every accepted trace. The log's dedup keys are numbered per (task, hash): an execution is shared "
+              "by references of one task only, so a dependency 'served' by the execution of a different task is a rejected log.")
 _sched("C06", "Theorems over every accepted trace: a dedup key is registered at most once and held by exactly one activation; only the registering "
               "activation runs a body, every other activation meeting the key becomes a waiter that never starts a command and returns the execution's "
-              "outcome after it finished; run: always never dedups. Key half (Props.C06Key): with a hash that reaches every part of the compiled task two "
+              "outcome after it finished; which key a reference gets — one per run: once task, one per (when_changed task, value), never shared by two tasks — "
+              "is the monitor keyMon evaluated on every log (verdict C06k; C06_key_discipline, C06_key_owner: the acceptor alone accepts fresh keys); beyond "
+              "the call limit the 1000th reference of a run: once task fails instead of waiting (open finding C06-call-limit-hits-many-references); also when that one execution was cut short by a cancellation local to the caller that started it (stream "
+              "cut-short); run: always never dedups. Key half (Props.C06Key): with a hash that reaches every part of the compiled task two "
               "references of a when_changed task get the same key iff they are called with the same set of variable values, so for every arrival order "
               "the executions are exactly one per distinct set (whenChanged_exact, _order_indep); once executes the first reference only, always every "
               "reference; that the code's hash reaches the resolved variables, command texts, env: and the vars: of sub-calls and dependencies is the "
@@ -399,7 +411,10 @@ PROPS["C11"] = {
 }
 _sched("C02", "Theorems over every accepted trace: the non-deferred entries of one execution start one at a time, in strictly increasing index order, "
               "each closed before the next (seqMon, C02_seq); a `task:` entry returns only after the callee, all its descendants at any depth and all "
-              "its deferred entries have finished (C02_call_sync, C02_descendants_done); a woken dedup waiter implies the shared execution is over. "
+              "its deferred entries have finished (C02_call_sync, C02_descendants_done); a woken dedup waiter implies the shared execution is over; "
+              "the started entries are exactly the non-deferred entries of the command list below the loop position, all of them once the body ran to "
+              "its end (C02_no_entry_skipped, C02_body_complete); every command of a callee saw the value its reference passed (literal, a variable of "
+              "the referrer, the referrer's own value; Sched.Pass, valMon beside the acceptor's own step: verdict C02v, C02_callee_sees_passed). "
               "Loop order (list, row-major matrix) and call variables: Props.C02Vars over the Vars model, tied by domain `vars`.")
 PROPS["C02"]["domains"] = [{"name": "sched"}, {"name": "vars", "env": {"VERIF_VARS_ENVDEP": "0"}}]
 PROPS["C02"]["lean"] = "Props.C02All"
@@ -407,7 +422,9 @@ PROPS["C02"]["prop_modules"] = ["Props.C02", "Props.C02Vars"]
 _sched("C03", "Theorems over every accepted trace: after a command failure that is not ignored no later non-deferred entry of that activation starts "
               "(failStopMon); the failure propagates to callers (task: entries) and dependents (deps), which start nothing further; ignore_error is exact "
               "(command level: that shell command's exit status only; task level: exit statuses of its own entries only); exit codes from Gen.Codes: "
-              "201 / the command's status with --exit-code for own commands, callees and dependencies (one level + chain lemma). Status at full "
+              "201 / the command's status with --exit-code for own commands, callees and dependencies (one level + chain lemma). A task that does not "
+              "compile (template error in a task-level field; TaskDef.compileOk, program data like the guard outcomes) fails before any of its commands "
+              "and before it counts as a call or takes a slot (C03_compile_error_before_cmds). Status at full "
               "strength (C03_status_full, a theorem since the fix of C03-dedup-waiter-status): the execution of a task ends with the bare failure and "
               "a marker (Outcome); every activation that takes it - the executor and every dedup waiter - returns its own wrapping (wrapFor, "
               "OutInv_sound), so in every reachable configuration a top-level activation, executor or waiter, never returns a bare exit status nor a "
@@ -529,7 +546,21 @@ def _c11_env_cache(m):
     return all(pool[i] in tainted for i in range(len(pool)) if a[i] != b[i])
 
 
+def _call_limit_acyclic(m):
+    """C07-call-limit-hits-acyclic-graphs / C06-call-limit-hits-many-references: the log is accepted, every other verdict agrees,
+    and the one difference is the call-limit monitor (Sched.callLimitMon: the program is acyclic AND an activation was born
+    with the call-limit error).  The monitor is the definition of the mechanism, so nothing else can be claimed through this."""
+    if m.get("domain") != "sched":
+        return False
+    a, b = m.get("impl", "").split(), m.get("model", "").split()
+    if not a or a[0] != "accept" or len(a) != len(b):
+        return False
+    return [(x, y) for x, y in zip(a, b) if x != y] == [("C07a=1", "C07a=0")]
+
+
 FINDING_PREDICATES = {
+    "C07-call-limit-hits-acyclic-graphs": _call_limit_acyclic,
+    "C06-call-limit-hits-many-references": _call_limit_acyclic,
     "C11-dynamic-cache-ignores-env": _c11_env_cache,
     "C19-cli-values-are-templated": _c19_values_templated,
     "C19-no-value-text-deleted": _c19_no_value_deleted,
@@ -648,7 +679,10 @@ FINDING_PREDICATES.update({
 })
 
 # the sched domain serves seven properties: each compares acceptance + its own verdict(s)
-for _pid, _keys in {"C01": ["C01"], "C02": ["C02"], "C03": ["C03", "C03s"], "C06": ["C06"], "C07": ["C07"], "C13": ["C13"], "C14": ["C14"]}.items():
+# (C02v: the value monitor — callee sees what was passed, deferred call sees the exit code; C06k: the key discipline monitor;
+#  C07a: an acyclic program does not hit the call limit — open findings C07-call-limit-hits-acyclic-graphs / C06-…-many-references)
+for _pid, _keys in {"C01": ["C01"], "C02": ["C02", "C02v"], "C03": ["C03", "C03s"], "C06": ["C06", "C06k", "C07a"], "C07": ["C07", "C07a"], "C13": ["C13"],
+                    "C14": ["C14", "C02v"]}.items():
     for _d in PROPS[_pid]["domains"]:
         if _d["name"] == "sched":
             _d["verdict_keys"] = _keys
